@@ -10,7 +10,9 @@ func TestMain(m *testing.M) { vt.Main(m) }
 
 func init() {
 	exprProp.Register()
+	opsProp.Register()
 }
 
 func TestVamExpr(t *testing.T) { exprProp.Check(t) }
+func TestVamOps(t *testing.T)  { opsProp.Check(t) }
 func TestReplay(t *testing.T)  { vt.TestReplay(t) }
